@@ -671,8 +671,7 @@ public:
         using reference = typename iterator::reference;
 
         bool empty() const {
-            return my_begin.my_node_ptr ? (my_begin.my_node_ptr->next(0) == my_end.my_node_ptr)
-                                        : true;
+            return my_begin.my_node_ptr == my_end.my_node_ptr;
         }
 
         bool is_divisible() const {
